@@ -57,13 +57,30 @@ def opts_of_node(n):
 # ------------------------------------------------------------------------------------------------
 # Gallina printers
 # ------------------------------------------------------------------------------------------------
+REGEX = {0: r"[a-z]+\Z", 1: r"[a-z][a-z0-9_-]*\Z"}
+
+
+def popts(params):
+    """the option dict of a str leaf (choices/case/strip/min/max/regex) or float leaf (lo/hi)"""
+    return params[0] if params and isinstance(params[0], dict) else {}
+
+
 def g_kind(kind, params):
     if kind == "str":
-        return "KStr"
+        o = popts(params)
+        if not o:
+            return "(KStr so_plain)"
+        st = o.get("strip")
+        strip = "None" if not st else ("(Some None)" if st is True else "(Some (Some %s))" % g_str(st))
+        case = {None: "None", "lower": "(Some true)", "upper": "(Some false)"}[o.get("case")]
+        return "(KStr (mkso %s %s %s %s %s %s))" % (
+            strip, case, g_opt(o.get("min"), g_z), g_opt(o.get("max"), g_z),
+            g_opt(o.get("regex"), lambda r: "%d%%N" % r), g_list(o.get("choices") or [], g_str))
     if kind == "int":
         return "(KInt %s %s)" % (g_opt(params[0], g_z), g_opt(params[1], g_z))
     if kind == "float":
-        return "KFloat"
+        o = popts(params)
+        return "(KFloat %s %s)" % (g_opt(o.get("lo"), g_float), g_opt(o.get("hi"), g_float))
     if kind == "bool":
         return "KBool"
     if kind == "any":
@@ -166,17 +183,43 @@ def variant(n):
 def rleaf(rng):
     n = rleaf0(rng)
     if n[1] in VARIANTS and rng.random() < 0.3:
-        n = ("L", n[1], tuple(n[2]) + (rng.choice(VARIANTS[n[1]]),), n[3])
+        vs = [v for v in VARIANTS[n[1]] if not (v == "inst" and popts(n[2]))]   # Field() has no string options
+        n = ("L", n[1], tuple(n[2]) + (rng.choice(vs),), n[3])
     return n
+
+
+def rstropts(rng):
+    """StringField options: choices (in the transformed case or in another one), case / strip transforms, regex,
+    length bounds"""
+    o = {}
+    r = rng.random()
+    if r < 0.5:
+        o["choices"] = rng.choice([["production", "dev"], ["PRODUCTION", "DEV"], ["Production", "dev"], ["hello"]])
+    elif r < 0.7:
+        o["regex"] = rng.choice([0, 1])
+    elif r < 0.85:
+        o["min"], o["max"] = rng.choice([(2, None), (None, 6), (3, 10), (0, 0)])
+    if rng.random() < 0.6:
+        o["case"] = rng.choice(["lower", "upper"])
+    if rng.random() < 0.5:
+        o["strip"] = rng.choice([True, True, "x-", " "])
+    return {k: v for k, v in o.items() if v is not None}
 
 
 def rleaf0(rng):
     r = rng.random()
     if r < 0.17:
+        if rng.random() < 0.6:
+            o = rstropts(rng)
+            if o:
+                return ("L", "str", (o,), rng.choice(["d", None, "production"]))
         return ("L", "str", (), rng.choice(["d", None, ""]))
     if r < 0.37:
         return ("L", "int", rng.choice([(None, None), (0, 99), (None, 99), (1, None)]), rng.choice([3, None, 0, 250]))
     if r < 0.47:
+        lo, hi = rng.choice([(None, None), (None, None), (0.0, 100.0), (None, 2.5), (1.5, None)])
+        if lo is not None or hi is not None:
+            return ("L", "float", ({k: v for k, v in (("lo", lo), ("hi", hi)) if v is not None},), rng.choice([1.5, None]))
         return ("L", "float", (), rng.choice([1.5, None]))
     if r < 0.67:
         return ("L", "bool", (), rng.choice([True, False, None]))
@@ -229,8 +272,10 @@ def rschema(rng, own, depth, budget):
 
 
 INT_RAW = ["5", "100", "zz", "", " 7", "1_0", "+3", "007", "0x10", "42"]
-FLOAT_RAW = ["2.5", "1e3", "zz", "", "7", " 0.25"]
-STR_RAW = ["hello", "", "a b", "x=y", "Zed"]
+FLOAT_RAW = ["2.5", "1e3", "zz", "", "7", " 0.25", "007", " 2.5 ", "1.50"]
+# texts that differ from the field's normal form: other case, padded, plus ones the options reject
+STR_RAW = ["hello", "", "a b", "x=y", "Zed", "production", "PRODUCTION", "  production ", "Dev", "DEV", " dev",
+           "x-dev-x", "staging", "abc1", "ab", "HELLO ", "toolongvalue"]
 FTAB = {}
 for _s in FLOAT_RAW + ["1.5", "-4.5"]:
     try:
@@ -256,7 +301,7 @@ def set_value_for(rng, n):
         # unchanged are assigned (what the command line delivers: strings / switch booleans)
         return rng.choice(["s1", "", None]) if kind == "str" else rng.choice([True, False, None])
     if kind == "str":
-        return rng.choice(["s1", "", 5, None, True])
+        return rng.choice(["s1", "", 5, None, True] + (STR_RAW if popts(n[2]) else []))
     if kind == "int":
         return rng.choice([7, "12", "zz", 1000, -1, True, None, 0])
     if kind == "float":
@@ -429,6 +474,16 @@ FIXED = [
                ("ss", L("str", ("sub",), "d")), ("sb", L("bool", ("sub",), True)),
                ("is_", L("str", ("inst",), "d")), ("ib", L("bool", ("inst",), False)),
                ("sub", ("S", "sub", [("n2", L("int", (None, 99, "number"), None)), ("ib2", L("bool", ("inst",), None))]))]),
+    # string fields with choices / transforms / regex / length bounds, bounded numbers: the parser takes any text, the
+    # override stores the field's normal form of it
+    ("S", "", [("mode", L("str", ({"choices": ["production", "dev"], "case": "lower"},), "dev")),
+               ("env", L("str", ({"choices": ["PRODUCTION", "DEV"], "case": "upper", "strip": True},), None)),
+               ("tier", L("str", ({"choices": ["Production", "dev"], "case": "lower"},), "dev")),
+               ("name", L("str", ({"regex": 1, "case": "lower", "strip": "x-"},), "d")),
+               ("tag", L("str", ({"min": 2, "max": 6, "strip": True}, "sub"), "ab")),
+               ("n", L("int", (0, 99), 3)), ("r", L("float", ({"lo": 0.0, "hi": 100.0},), 1.5)),
+               ("sub", ("S", "sub", [("mode", L("str", ({"choices": ["hello"]},), None)),
+                                     ("rate", L("float", ({"hi": 2.5}, "number"), None))]))]),
     # keys that are public members of Schema / of Config
     ("S", "", [("validator", L("int", (None, None), 1)), ("make_type", L("bool", (), True)),
                ("upload", ("S", "upload", [("validator", L("str", (), "v")), ("get_all_fields", L("bool", (), None)),
@@ -455,7 +510,7 @@ def generate(rng, tier):
     sub1 = FIXED[1][2][2][1]
     cases.append(make_case(det, sub1, [""], "argv"))
     cases.append(make_case(det, sub1[2][1][1], ["", "sub"], "argv"))
-    cases.append(make_case(det, FIXED[11][2][1][1], ["root"], "empty"))
+    cases.append(make_case(det, FIXED[12][2][1][1], ["root"], "empty"))
     n = 1000 if tier == "quick" else 12000
     while len(cases) < n:
         r = rng.random()
@@ -536,15 +591,22 @@ def make_field(ch, all_schemas):
         f.storage_type = {"str": str, "bool": bool}[kind]     # storage type overridden on the instance
         return f
     if kind == "str":
-        return (subclass_of(cc.StringField) if var == "sub" else cc.StringField)(default=default)
+        o = popts(params)
+        kw = {}
+        if o:
+            kw = {"choices": o.get("choices"), "transform_case": o.get("case"), "transform_strip": o.get("strip"),
+                  "min_len": o.get("min"), "max_len": o.get("max"),
+                  "regex": REGEX[o["regex"]] if o.get("regex") is not None else None}
+        return (subclass_of(cc.StringField) if var == "sub" else cc.StringField)(default=default, **kw)
     if kind == "int":
         if var == "number":
             return cc.NumberField(int, min=params[0], max=params[1], default=default)
         return (subclass_of(cc.IntField) if var == "sub" else cc.IntField)(min=params[0], max=params[1], default=default)
     if kind == "float":
+        o = popts(params)
         if var == "number":
-            return cc.NumberField(float, default=default)
-        return (subclass_of(cc.FloatField) if var == "sub" else cc.FloatField)(default=default)
+            return cc.NumberField(float, min=o.get("lo"), max=o.get("hi"), default=default)
+        return (subclass_of(cc.FloatField) if var == "sub" else cc.FloatField)(min=o.get("lo"), max=o.get("hi"), default=default)
     if kind == "bool":
         return (subclass_of(cc.BoolField) if var == "sub" else cc.BoolField)(default=default)
     if kind == "any":
@@ -784,7 +846,8 @@ def _impl(c):
             continue
         cls = type(a).__name__
         tag = {"_StoreAction": "store", "_StoreTrueAction": "true", "_StoreFalseAction": "false"}.get(cls, cls)
-        c["_actions"].append((list(a.option_strings), a.dest, tag, a.default, a.nargs, a.const, a.required, a.type))
+        c["_actions"].append((list(a.option_strings), a.dest, tag, a.default, a.nargs, a.const, a.required, a.type,
+                              a.choices))
         o_tbl.append(("|".join(a.option_strings), a.dest, tag, a.default))
 
     def state(cfg):
@@ -894,13 +957,13 @@ def oracle(c, obs):
     exp = []
     for p, st in c["_storage"]:
         if st in (str, int, float):
-            exp.append(([opt_of(p)], p, "store", None, None, None, False, None))
+            exp.append(([opt_of(p)], p, "store", None, None, None, False, None, None))   # any text: no choices, no type
         elif st is bool:
-            exp.append(([opt_of(p)], p, "true", None, 0, True, False, None))
-            exp.append((["--no-" + opt_of(p)[2:]], p, "false", None, 0, False, False, None))
+            exp.append(([opt_of(p)], p, "true", None, 0, True, False, None, None))
+            exp.append((["--no-" + opt_of(p)[2:]], p, "false", None, 0, False, False, None, None))
     if c["_actions"] != exp:
-        bad.append("parser: generated options %r, expected %r" % ([(a[0], a[1], a[2], a[3]) for a in c["_actions"]],
-                                                                 [(a[0], a[1], a[2], a[3]) for a in exp]))
+        bad.append("parser: generated options %r, expected %r" % ([(a[0], a[1], a[2], a[3], a[8]) for a in c["_actions"]],
+                                                                 [(a[0], a[1], a[2], a[3], a[8]) for a in exp]))
     # (4) parsing + override
     if c["supplied"] is None:
         if parsed != ("err", "exit"):
@@ -953,6 +1016,9 @@ def tags(c, obs):
         t.add("kind=" + (n[1] if n[0] == "L" else {"S": "schema", "T": "cfgtype"}[n[0]]))
         if variant(n):
             t.add("class=%s/%s" % (n[1], variant(n)))
+        if n[0] == "L" and n[1] in ("str", "float"):
+            for k in popts(n[2]):
+                t.add("%s-option=%s" % (n[1], k))
     if c["argv"] is None:
         t.add("ns-handmade")
     elif not c["argv"]:
